@@ -701,18 +701,33 @@ _PATCHES = None
 
 
 def install(sched):
-    """Patch the module attributes the library looks up at call time."""
+    """Patch the module attributes the library looks up at call time. The scan is generic: in every module of the `websocket` package any
+    attribute that IS the real threading / time / selectors / inspect module, or one of their classes / functions the scheduler must own, is
+    replaced - so moving an import from one library module to another does not let a real lock or clock escape."""
     global CUR
     CUR = sched
     if _saved:
         return
+    import inspect as _rinspect
+    import selectors as _rsel
+    import sys as _sys
     ft, ftime, fsel, finsp = FakeThreading(), FakeTime(), FakeSelectors(), FakeInspect()
-    patches = [(lib._app, "threading", ft), (lib._core, "threading", ft), (lib._app, "time", ftime), (lib._core, "time", ftime),
-               (lib._dispatcher, "time", ftime), (lib._dispatcher, "selectors", fsel), (lib._socket, "selectors", fsel),
-               (lib._app, "selectors", fsel), (lib._abnf, "Lock", FLock), (lib._app, "inspect", finsp), (lib._dispatcher, "inspect", finsp)]
-    for mod, name, val in patches:
-        _saved[(mod, name)] = getattr(mod, name)
-        setattr(mod, name, val)
+    by_identity = [
+        (_rt, ft), (_rtime, ftime), (_rsel, fsel), (_rinspect, finsp),
+        (_rt.Lock, FLock), (_rt.RLock, FRLock), (_rt.Event, FEvent), (_rt.Thread, FThread), (_rt.Condition, FCondition),
+        (_rt.Semaphore, FSemaphore), (_rt.BoundedSemaphore, FSemaphore),
+        (_rtime.time, ftime.time), (_rtime.sleep, ftime.sleep), (_rtime.monotonic, ftime.monotonic),
+        (_rsel.DefaultSelector, FSelector), (_rsel.SelectSelector, FSelector),
+    ]
+    for modname, mod in list(_sys.modules.items()):
+        if mod is None or not (modname == "websocket" or modname.startswith("websocket.")) or modname.startswith("websocket.tests"):
+            continue
+        for name, val in list(vars(mod).items()):
+            for real, fake in by_identity:
+                if val is real:
+                    _saved[(mod, name)] = val
+                    setattr(mod, name, fake)
+                    break
 
 
 def uninstall():
